@@ -53,6 +53,14 @@ def ev_call(eng, e, st):
             yield None, st
             return
     if isinstance(e.func, ast.Attribute) and e.func.attr == 'format' and isinstance(e.func.value, (ast.Constant, ast.JoinedStr)):
+        if isinstance(e.func.value, ast.Constant) and e.args and all(isinstance(a, ast.Name) for a in e.args) and \
+                any(is_z3(st.env.get(a.id)) and st.env[a.id].sort() == kinds.OBJ_SORT for a in e.args):
+            # a string assembled from abstract text values is data, not a message: an uninterpreted function of its parts
+            vals = [st.env[a.id] for a in e.args]
+            if all(is_z3(v) and v.sort() == kinds.OBJ_SORT for v in vals):
+                f = uninterpreted('format[%s]' % e.func.value.value, ['ObjT'] * len(vals), 'ObjT')
+                yield f(*vals), st
+                return
         yield '<msg>', st
         return
     for f, st0 in eng.ev(e.func, st):
@@ -933,7 +941,34 @@ def spec_assert_step(eng, args, kwargs, st):
     yield None, st
 
 
+def spec_columns_of(eng, args, kwargs, st):
+    """columns_of(n_rows, converters, lambda col, row: number, lambda col, row: text): what io.load_delimited returns"""
+    n_rows, convs, fnum, ftxt = args
+    items = seq_items(eng, convs, st)
+    cols = []
+    for k, cv in enumerate(items):
+        name = cv.name if isinstance(cv, FnV) else str(cv)
+        if name == 'float':
+            def at(r, k=k):
+                for v, _ in call_lambda(eng, fnum, [k, r], st):
+                    return v
+            cols.append(new_ref(st, SymListV(n_rows, at, 'real')))
+        else:
+            def at(r, k=k):
+                for v, _ in call_lambda(eng, ftxt, [k, r], st):
+                    return v
+            cols.append(new_ref(st, SymListV(n_rows, at, 'obj')))
+    yield (cols[0] if len(cols) == 1 else tuple(cols)), st
+
+
+def spec_fmt(eng, args, kwargs, st):
+    f = uninterpreted('format[%s]' % args[0], ['ObjT'] * (len(args) - 1), 'ObjT')
+    yield f(*args[1:]), st
+
+
 SPEC = {
+    'columns_of': spec_columns_of,
+    'fmt': spec_fmt,
     'assert_step': spec_assert_step,
     'floor': spec_floor,
     'sum_of': spec_sum,
